@@ -9,6 +9,7 @@ import itertools
 import random
 import re
 import typing
+import warnings
 
 # ----------------------------------------------------------------------------------
 # Python AST -> Coq term (TL.Model.Future.expr)
@@ -134,7 +135,37 @@ def namespace() -> dict:
 def evaluate(s: str, ns: dict):
     for f in getattr(typing, "_cleanups", ()):   # typing's own subscription caches: start every evaluation cold
         f()
-    return eval(compile(s, "<verif:c20-ann>", "eval", dont_inherit=True), dict(ns))
+    with warnings.catch_warnings():              # `(None)[int]`, `"A"[int]` ... compile with a SyntaxWarning
+        warnings.simplefilter("ignore")
+        return eval(compile(s, "<verif:c20-ann>", "eval", dont_inherit=True), dict(ns))
+
+
+REF_UNION = "__c20_Union__"
+
+
+class _RefReading(ast.NodeTransformer):
+    """The statement's reading of an INPUT: `a | b` is typing.Union[a, b] (binary, as written; typing flattens).
+    Nothing else is touched: no renaming of builtin generics, no flattening of a spine, no special case for
+    any operand class.  Not a re-implementation of future.transform: this is the clause "typing.Union for |"."""
+
+    def visit_BinOp(self, node):
+        self.generic_visit(node)
+        if not isinstance(node.op, ast.BitOr):
+            return node
+        return ast.copy_location(ast.Subscript(
+            value=ast.Name(id=REF_UNION, ctx=ast.Load()),
+            slice=ast.Tuple(elts=[node.left, node.right], ctx=ast.Load()), ctx=ast.Load()), node)
+
+
+def evaluate_ref(s: str, ns: dict):
+    """evaluate the input under the reference reading (used when the interpreter's own `|` rejects the operands:
+    `"A" | None`, `None | None | X` raise TypeError on 3.12, yet they are what transform exists for on 3.9)"""
+    tree = ast.fix_missing_locations(_RefReading().visit(ast.parse(s, mode="eval")))
+    for f in getattr(typing, "_cleanups", ()):
+        f()
+    with warnings.catch_warnings():
+        warnings.simplefilter("ignore")
+        return eval(compile(tree, "<verif:c20-ref>", "eval", dont_inherit=True), dict(ns, **{REF_UNION: typing.Union}))
 
 
 _UNION_ORIGINS = None
@@ -272,17 +303,37 @@ class Gen:
         return "%s[%s]" % (self.rng.choice(LITERALS), ", ".join(items))
 
     def member(self, d):
-        """an operand of `|` (never a bare string: str | type does not evaluate)"""
+        """an operand of `|`.  A bare string reference / None / Ellipsis is an operand like any other (round 3:
+        `"Foo" | None` is the annotation transform exists for; that the 3.12 interpreter rejects `str | type` only
+        means the meaning clause reads the input by the reference reading, see c20_oracle)."""
+        r = self.rng.random()
+        if r < 0.12:
+            self.f("union-member-string-ref")
+            return quote(self.rng, self.rng.choice(FWD))
+        if r < 0.15:
+            self.f("union-member-ellipsis")
+            return "..."
         for _ in range(5):
             s = self.ann(d)
             if not (s.startswith("'") or s.startswith('"')):
                 return s
         return self.rng.choice(PLAIN)
 
+    def const_member(self):
+        r = self.rng.random()
+        if r < 0.55:
+            return quote(self.rng, self.rng.choice(FWD))
+        return "None" if r < 0.85 else "..."
+
     def chain(self, d):
         """a |-chain with a random binary-tree shape (any associativity / parenthesisation)"""
         n = self.rng.choice([2, 2, 2, 3, 3, 4, 5])
-        ops = [self.member(d - 1) for _ in range(n)]
+        if self.rng.random() < 0.10:
+            # a union all of whose members are constants (string references, None, Ellipsis)
+            self.f("union-all-constants")
+            ops = [self.const_member() for _ in range(n)]
+        else:
+            ops = [self.member(d - 1) for _ in range(n)]
         if self.rng.random() < 0.45:
             ops[self.rng.randrange(n)] = "None"
             self.f("union-with-None")
@@ -452,3 +503,365 @@ NONANN_FIXED = [
     "a ^ b | c", "a | b ^ c", "not a | b", "a < b | c", "f'{a | b}'", "(x := list)", "x.list.dict", "dict.keys",
     "u'abc'", "f'{x!r:>{w}}'", "a @ b", "a // b | c", "a ** b | c",
 ]
+
+
+# ----------------------------------------------------------------------------------
+# Round 3: the generators audited against the model's expression grammar (Model/Future.v)
+# ----------------------------------------------------------------------------------
+# `expr` has 8 constructors; with the 6 `const` payloads, the table / non-table split of Name and the
+# BitOr / arithmetic split of BinOp that is 15 node KINDS.  A node occurs at one of 11 POSITIONS (root or a child
+# slot of a constructor).  The theorems quantify over every tree, so every (position, kind) pair and every
+# combination of member kinds on a `|` spine must be producible by the correspondence stream and by the oracle
+# stream.  grammar_coverage() measures that on the strings of a run (it goes into the evidence).
+
+KINDS = ["Name", "NameG", "Attribute", "CStr", "CBytes", "CNum", "CEllipsis", "CNone", "CBool", "Subscript",
+         "Tuple", "List_", "BitOr", "Arith", "Other"]
+POSITIONS = ["root", "Attribute.value", "Subscript.value", "Subscript.slice", "Tuple.elt", "List_.elt",
+             "BitOr.left", "BitOr.right", "Arith.left", "Arith.right", "Other.child"]
+CONST_KINDS = ("CStr", "CBytes", "CNum", "CEllipsis", "CNone", "CBool")
+
+
+def kind(n) -> str:
+    if isinstance(n, ast.Name):
+        return "NameG" if n.id in DOCUMENTED else "Name"
+    if isinstance(n, ast.Attribute):
+        return "Attribute"
+    if isinstance(n, ast.Constant):
+        v = n.value
+        if n.kind is not None:
+            return "Other"                      # u'..' keeps its kind: printed as Other by to_coq
+        if v is None:
+            return "CNone"
+        if v is Ellipsis:
+            return "CEllipsis"
+        if isinstance(v, bool):
+            return "CBool"
+        if isinstance(v, str):
+            return "CStr"
+        if isinstance(v, bytes):
+            return "CBytes"
+        return "CNum"
+    if isinstance(n, ast.Subscript):
+        return "Subscript"
+    if isinstance(n, ast.Tuple):
+        return "Tuple"
+    if isinstance(n, ast.List):
+        return "List_"
+    if isinstance(n, ast.BinOp):
+        return "BitOr" if isinstance(n.op, ast.BitOr) else "Arith"
+    return "Other"
+
+
+def children(n):
+    """[(position, child)] in the model's constructor layout"""
+    k = kind(n)
+    if k == "Attribute":
+        return [("Attribute.value", n.value)]
+    if k == "Subscript":
+        return [("Subscript.value", n.value), ("Subscript.slice", n.slice)]
+    if k == "Tuple":
+        return [("Tuple.elt", e) for e in n.elts]
+    if k == "List_":
+        return [("List_.elt", e) for e in n.elts]
+    if k in ("BitOr", "Arith"):
+        return [(k + ".left", n.left), (k + ".right", n.right)]
+    if k == "Other" and not isinstance(n, ast.Constant):
+        kids: list = []
+        _skel(n, kids)
+        return [("Other.child", c) for c in kids]
+    return []
+
+
+def spine_members(n):
+    """the operand stack of visit_BinOp's while loop for a BinOp node (the model's `spine`)"""
+    ms, left = [n.right], n.left
+    while isinstance(left, ast.BinOp):
+        ms.insert(0, left.right)
+        left = left.left
+    return [left] + ms
+
+
+def _is_literal_sub(n) -> bool:
+    if not isinstance(n, ast.Subscript):
+        return False
+    v = n.value
+    return (isinstance(v, ast.Name) and v.id == "Literal") or (isinstance(v, ast.Attribute) and v.attr == "Literal")
+
+
+_ANN_OPERAND = {"Name", "NameG", "Attribute", "Subscript", "BitOr", "CStr", "CNone", "CEllipsis"}
+_ANN_AT = {
+    "root": {"Name", "NameG", "Attribute", "Subscript", "BitOr", "CStr", "CNone", "CEllipsis"},
+    "Attribute.value": {"Name", "NameG", "Attribute"},
+    "Subscript.value": {"Name", "NameG", "Attribute", "Subscript"},
+    "Subscript.slice": set(KINDS) - {"Arith", "Other", "List_"},
+    "Tuple.elt": set(KINDS) - {"Arith", "Other"},
+    "List_.elt": set(KINDS) - {"Arith", "Other", "List_"},
+    "BitOr.left": _ANN_OPERAND, "BitOr.right": _ANN_OPERAND,
+}
+
+
+_ARITY = {"list": 1, "set": 1, "Pattern": 1, "dict": 2}
+
+
+def in_annotation_grammar(tree) -> bool:
+    """Is this tree an annotation expression of the quantifier's grammar (names, dotted names, subscripts,
+    tuples and lists as subscript arguments, ellipsis, |-chains over types / string references / None / Ellipsis,
+    Literal[constants], Callable[[...], ...], Annotated[...])?  Everything else (arithmetic, calls, `|` between
+    numbers / bytes / tuples, a constant or a union being subscripted or dotted, a tuple at the root) is an
+    expression the statement only demands totality and identity of.  Used to flag the systematically enumerated
+    strings; the narrower reading is the one in favour of the code."""
+    body = tree.body if isinstance(tree, ast.Expression) else tree
+    st = [("root", body, False)]
+    while st:
+        p, n, list_ok = st.pop()
+        k = kind(n)
+        if k not in _ANN_AT.get(p, ()):
+            return False
+        if k == "List_" and not list_ok:
+            # a list display is an annotation argument only as the parameter list of Callable[[...], R] (first
+            # element of a subscript's argument tuple); `list[[]]` evaluates on the builtin, typing.List[[]] is unhashable
+            return False
+        if _is_literal_sub(n):
+            args = n.slice.elts if isinstance(n.slice, ast.Tuple) else [n.slice]
+            if not all(kind(a) in CONST_KINDS or (isinstance(a, ast.UnaryOp) and isinstance(a.op, ast.USub)
+                                                  and kind(a.operand) == "CNum") for a in args):
+                return False
+            st.append(("Subscript.value", n.value, False))
+            continue
+        if k == "Subscript" and isinstance(n.value, ast.Name) and n.value.id in _ARITY:
+            # the builtin classes accept any number of parameters at run time (`list[A, B]`, `list[()]` evaluate),
+            # the typing aliases check it: a builtin generic with the wrong number of parameters is not an annotation
+            nargs = len(n.slice.elts) if isinstance(n.slice, ast.Tuple) else 1
+            if nargs != _ARITY[n.value.id]:
+                return False
+        for i, (cp, c) in enumerate(children(n)):
+            st.append((cp, c, k == "Tuple" and p == "Subscript.slice" and i == 0))
+    return True
+
+
+def grammar_coverage(items) -> dict:
+    """items: [(string, annotation flag)].  Which (position, kind) pairs of the model grammar and which sets of
+    member kinds on a `|` spine occur; `missing` lists the pairs that never occur (in any string / in a string
+    flagged annotation although the pair is inside the annotation grammar)."""
+    seen, seen_ann, spines, allconst = set(), set(), {}, 0
+    for s, a in items:
+        try:
+            body = ast.parse(s, mode="eval").body
+        except SyntaxError:
+            continue
+        st = [("root", body)]
+        while st:
+            p, n = st.pop()
+            k = kind(n)
+            seen.add((p, k))
+            if a:
+                seen_ann.add((p, k))
+            if k == "BitOr" and p not in ("BitOr.left", "Arith.left"):
+                ks = sorted(set(kind(m) for m in spine_members(n)))
+                key = "+".join(ks)
+                spines[key] = spines.get(key, 0) + 1
+                if all(x in ("CStr", "CNone", "CEllipsis") for x in ks):
+                    allconst += 1
+            st += children(n)
+    missing = ["%s<-%s" % (p, k) for p in POSITIONS for k in KINDS if (p, k) not in seen]
+    missing_ann = ["%s<-%s" % (p, k) for p in POSITIONS for k in sorted(_ANN_AT.get(p, ()))
+                   if (p, k) not in seen_ann]
+    return {"position_kind_pairs": len(seen), "of": len(POSITIONS) * len(KINDS), "missing": missing,
+            "missing_in_annotation_stream": missing_ann, "spine_member_kind_sets": len(spines),
+            "spines_all_str_none_ellipsis": allconst,
+            "spines_with_string_member": sum(c for k, c in spines.items() if "CStr" in k.split("+")),
+            "spines_with_ellipsis_member": sum(c for k, c in spines.items() if "CEllipsis" in k.split("+"))}
+
+
+# ---- every parenthesisation of a chain -------------------------------------------------------------------
+
+def chain_shapes(n: int):
+    """templates over @0..@{n-1}: every binary tree over n operands; a composite left operand both bare (the
+    left-associative spelling) and parenthesised (same tree, other spelling)"""
+    def trees(lo, hi):
+        if hi - lo == 1:
+            yield "@%d" % lo, True
+            return
+        for k in range(lo + 1, hi):
+            for l, la in trees(lo, k):
+                for r, ra in trees(k, hi):
+                    rs = r if ra else "(" + r + ")"
+                    yield l + " | " + rs, False
+                    if not la:
+                        yield "(" + l + ") | " + rs, False
+    return [t for t, _ in trees(0, n)]
+
+
+def fill(template: str, ops) -> str:
+    s = template
+    for i in reversed(range(len(ops))):
+        s = s.replace("@%d" % i, ops[i])
+    return s
+
+
+# ---- stratum S1: unions all of whose members are constants ------------------------------------------------
+
+_S_POOL = ['"Foo"', "'B'", "'int | str'", '"ns.Inner"', "'list[int]'"]
+
+
+def _const_op(k: str, i: int) -> str:
+    return {"S": _S_POOL[i % len(_S_POOL)], "N": "None", "E": "..."}[k]
+
+
+def const_unions(n: int):
+    """EVERY |-chain of n members drawn from {string reference, None, Ellipsis}, in every parenthesisation
+    and spelling: 3^n assignments x chain_shapes(n)"""
+    out = []
+    for t in chain_shapes(n):
+        for ks in itertools.product("SNE", repeat=n):
+            out.append(fill(t, [_const_op(k, i) for i, k in enumerate(ks)]))
+    return out
+
+
+# one-hole contexts of the annotation grammar: every position a union can be nested at
+CONTEXTS = [
+    "list[@]", "typing.List[@]", "set[@]", "type[@]", "G1[@]", "ns.list[@]", "Optional[@]", "typing.Optional[@]",
+    "dict[str, @]", "dict[@, int]", "Mapping[@, @]", "tuple[@, ...]", "tuple[int, @]", "tuple[@, int, str]", "Tuple[@]",
+    "Callable[[@], int]", "Callable[[int, @], None]", "Callable[[int], @]", "Callable[..., @]",
+    "Annotated[@, 'meta | x']", "Union[@, int]", "typing.Union[int, @]", "G2[@, T][int]", "G2[int, T][@]",
+    "int | (@)", "(@) | int", "@ | int", "list[int] | (@)", "None | (@)", "(@) | None", "'C' | (@)", "(@) | 'C'",
+    "list[@] | None", "dict[str, @] | list[@]",
+]
+
+
+def nest(ctx: str, s: str) -> str:
+    return ctx.replace("@", s)
+
+
+def const_union_inputs(rng, thorough: bool):
+    """S1 at the root and nested at every position: exhaustive for n = 2, 3 at the root and n = 2 in every
+    context; sampled beyond (n = 3 in contexts, n = 4 / 5, contexts in contexts)"""
+    c2, c3, c4 = const_unions(2), const_unions(3), const_unions(4)
+    out = list(c2) + list(c3)
+    out += c4 if thorough else rng.sample(c4, 120)
+    if thorough:
+        out += rng.sample(const_unions(5), 1500)
+    for ctx in CONTEXTS:
+        out += [nest(ctx, s) for s in c2]
+        out += [nest(ctx, s) for s in (c3 if thorough else rng.sample(c3, 12))]
+    for _ in range(3000 if thorough else 300):
+        a, b = rng.choice(CONTEXTS), rng.choice(CONTEXTS)
+        out.append(nest(a, nest(b, rng.choice(c2 if rng.random() < 0.6 else c3))))
+    return out
+
+
+# ---- stratum S3: every combination of member kinds on a chain ---------------------------------------------
+
+MEMBER_ALPHABET = [
+    "int", "A", "list", "Pattern", "ns.Inner", "list[int]", "typing.List[int]", "dict[str, A]", "'Foo'", "None", "...",
+    "(A | B)", "Literal['a|b']", "Optional[int]", "Callable[[int], str]",
+    # not annotation members (`|` between values): total / identity for the oracle, exact tree for the model
+    "1", "True", "b'x'", "(A, B)", "[A]", "f(A)", "(A + B)",
+]
+
+
+def member_kind_inputs(rng, thorough: bool):
+    out = []
+    for a in MEMBER_ALPHABET:
+        for b in MEMBER_ALPHABET:
+            out.append("%s | %s" % (a, b))
+    shapes3 = chain_shapes(3)
+    triples = list(itertools.product(MEMBER_ALPHABET, repeat=3))
+    for ops in rng.sample(triples, 3000 if thorough else 350):
+        out.append(fill(rng.choice(shapes3), list(ops)))
+    return out
+
+
+# ---- stratum S4: the grammar grid: every position x every kind --------------------------------------------
+
+GRID_CONTEXTS = [
+    "@", "(@).attr", "(@)[int]", "G1[@]", "list[@]", "(@, int)", "(int, @)", "G2[@, int]", "[@]", "Callable[[@], int]",
+    "(@) | int", "int | (@)", "(@) + A", "A - (@)", "f(@)", "f(k=@)", "-(@)", "(@) if a else b", "lambda: (@)",
+    "x[(@):]",
+]
+GRID_FILLERS = [
+    "A", "list", "Pattern", "ns.Inner", "list.foo", "'A | B'", "b'x|y'", "1", "2.5", "...", "None", "True",
+    "list[int]", "A, list", "()", "[A, list]", "[]", "A | list", "'A' | None", "A + list", "f(list)", "-A",
+]
+
+
+_BARE_TUPLE_OK = ("@", "G1[@]", "list[@]")      # holes where `A, list` is a Tuple node without parentheses
+
+
+def grid_put(ctx: str, f: str, inner: bool = False) -> str:
+    if inner or ("," in f and not f.startswith(("(", "[")) and ctx not in _BARE_TUPLE_OK):
+        f = "(" + f + ")"                        # parentheses are not in the tree
+    return ctx.replace("(@)", "(" + f + ")" if not f.startswith("(") else f).replace("@", f)
+
+
+def grid_inputs(rng, thorough: bool):
+    """every (position, kind) pair of the model grammar: each one-hole context (at least one per child slot of
+    every constructor) filled with a representative of every kind; contexts composed two deep (sampled in quick)"""
+    out = [grid_put(c, f) for c in GRID_CONTEXTS for f in GRID_FILLERS]
+    pairs = [(a, b) for a in GRID_CONTEXTS for b in GRID_CONTEXTS if b != "@" and a != "@"]
+    for a, b in (pairs if thorough else rng.sample(pairs, 160)):
+        for f in rng.sample(GRID_FILLERS, 8 if thorough else 3):
+            out.append(grid_put(a, grid_put(b, f), inner=True))
+    return out
+
+
+# ---- near-duplicate strings: histories of the (annotation, union) cache -----------------------------------
+
+def variants(s: str):
+    """strings that a careless cache key could confuse with s: the same text with blanks added / removed INSIDE
+    a string constant (a different annotation), with another layout OUTSIDE constants (the same annotation,
+    another key), other letter case / quote style inside a constant.  [(variant, what)]"""
+    out = []
+    try:
+        tree = ast.parse(s, mode="eval")
+    except SyntaxError:
+        return out
+    consts = [n for n in ast.walk(tree) if isinstance(n, ast.Constant) and isinstance(n.value, str)
+              and n.kind is None and n.lineno == n.end_lineno == 1]
+    for n in consts[:3]:
+        v = n.value
+        alts = [("blanks-removed-in-constant", "".join(v.split())),
+                ("blanks-added-in-constant", re.sub(r"\s*([|,\[\]])\s*", r" \1 ", v)),
+                ("trailing-blank-in-constant", v + " "),
+                ("case-in-constant", v.swapcase()),
+                ("tab-in-constant", v.replace(" ", "\t"))]
+        for what, w in alts:
+            if w != v:
+                out.append((s[:n.col_offset] + repr(w) + s[n.end_col_offset:], what))
+    try:
+        canon = ast.unparse(tree)
+        if canon != s:
+            out.append((canon, "layout-canonical"))
+    except Exception:   # noqa: BLE001
+        pass
+    # layout outside constants: drop blanks that are not inside a string token / not between two words
+    import io
+    import tokenize
+    try:
+        toks = [t for t in tokenize.generate_tokens(io.StringIO(s).readline)
+                if t.type not in (tokenize.NEWLINE, tokenize.NL, tokenize.ENDMARKER)]
+        compact, prev = "", None
+        for t in toks:
+            if prev is not None and prev.type in (tokenize.NAME, tokenize.NUMBER) and t.type in (tokenize.NAME, tokenize.NUMBER):
+                compact += " "
+            compact += t.string
+            prev = t
+        if compact != s:
+            out.append((compact, "layout-compact"))
+        spaced = " ".join(t.string for t in toks)
+        if spaced != s and "lambda" not in s:
+            out.append((spaced, "layout-spaced"))
+    except Exception:   # noqa: BLE001
+        pass
+    out.append((s + " ", "trailing-blank"))
+    res, seen = [], {s}
+    for v, what in out:
+        if v in seen:
+            continue
+        try:
+            ast.parse(v, mode="eval")
+        except SyntaxError:
+            continue
+        seen.add(v)
+        res.append((v, what))
+    return res
